@@ -164,6 +164,11 @@ func genXport(r *rng, seed uint64, focus, arm string) *plan.Plan {
 		if r.p(0.25) {
 			c.CancelUs = r.i64(100, c.DeadlineUs)
 		}
+		if r.p(0.1) {
+			// the caller gives up almost at once: between the transport's last
+			// look at the context and its first write
+			c.CancelUs = r.i64(1, 300)
+		}
 		t := &plan.TokenSpec{Ans: plan.AnswerSpec{NAn: r.rng(1, 3), TTLs: []uint32{300}, Shape: "plain", Compress: r.intn(3)}}
 		if r.p(0.2) {
 			t.Ans.PadTo = []int{600, 1500, 5000, 20000}[r.intn(4)]
